@@ -568,3 +568,8 @@ Definition expected_classes : list string :=
   ["Simulator"; "EventQueue"; "Event"; "EVEvent"; "PluginEvent"; "UnplugEvent"; "RecomputeEvent";
    "ChargingNetwork"; "BaseEVSE"; "EVSE"; "DeadbandEVSE"; "FiniteRatesEVSE"; "EV"; "Battery";
    "Linear2StageBattery"]%string.
+
+(* the instance attributes of a class that do NOT survive a dump + load (not written by the
+   _to_dict the class uses, or not restored by the _from_dict it uses) *)
+Definition unserialised (st : list string) (du re : list (string * list string)) : list string :=
+  filter (fun a => negb (kept du re a)) st.
